@@ -11,12 +11,14 @@ class MultiIndexConverter(Transformer):
     def __init__(self):
         super().__init__()
         self.modified_dimensions = []
+        self.feature_dimensions = []
         self.coords_from_fit = {}
         self.coords_from_transform = {}
 
     def get_serialization_attrs(self) -> dict:
         return dict(
             modified_dimensions=self.modified_dimensions,
+            feature_dimensions=self.feature_dimensions,
             coords_from_fit=self.coords_from_fit,
             coords_from_transform=self.coords_from_transform,
         )
@@ -28,6 +30,11 @@ class MultiIndexConverter(Transformer):
         feature_dims: Dims | None = None,
         **kwargs,
     ) -> Self:
+        # Remember which of the dimensions are feature dimensions
+        self.feature_dimensions = [
+            str(dim) for dim in (feature_dims or []) if dim in X.dims
+        ]
+
         # Store original MultiIndexes
         for dim in X.dims:
             index = X.indexes[dim]
@@ -46,6 +53,25 @@ class MultiIndexConverter(Transformer):
             self.coords_from_transform[dim] = X_transformed.coords[dim]
 
             index = X_transformed.indexes[dim]
+
+            # The MultiIndex of a feature dimension is replaced by positions: the
+            # labels must therefore be those seen during fit, in the same order
+            if dim in self.feature_dimensions and dim in self.coords_from_fit:
+                fit_index = self.coords_from_fit[dim].to_index()
+                if not index.equals(fit_index):
+                    has_same_labels = (
+                        index.is_unique
+                        and index.size == fit_index.size
+                        and index.isin(fit_index).all()
+                    )
+                    if not has_same_labels:
+                        raise ValueError(
+                            "Data to be transformed has different coordinates than "
+                            f"the data used to fit (dimension {dim})."
+                        )
+                    X_transformed = X_transformed.sel({dim: fit_index})
+                    index = X_transformed.indexes[dim]
+
             X_transformed = X_transformed.drop_vars(dim)
             X_transformed.coords[dim] = range(index.size)
 
